@@ -185,6 +185,57 @@ def removeNode (g : CG) (x : Node) : CG :=
 
 def removeNodes (g : CG) (xs : List Node) : CG := xs.foldl removeNode g
 
+/-! ### `_create_covered_cdg`: WHICH nodes are removed — and the exclusion gate of `visit_node`
+
+Both functions look at the same three facts of a basic block: whether it holds a real instruction at all
+(blocks made of `TryBegin`/`TryEnd` pseudo instructions only are never touched), whether the line of its
+last instruction carries a conditional statement that is to be covered, and whether at least one of its
+instructions sits on a line that is to be covered.  `BlockInfo` is what the harness exports per node of the
+unpruned CDG (the answers of the real `AstInfo`), in the order of `tuple(cdg.graph)`. -/
+
+structure BlockInfo where
+  node : Node
+  isBlock : Bool                  -- `isinstance(node, cf.BasicBlockNode)`
+  elems : List Bool               -- per element of `node.basic_block`: `isinstance(instr, Instr)`
+  last : Option (Option Bool)     -- `try_get_instruction(-1)`: none / lineno not an int / `should_cover_conditional_statement`
+  lines : List (Option Bool)      -- per original instruction: lineno not an int / `should_cover_line(lineno)`
+  deriving Repr
+
+/-- `last_instr is None or not isinstance(last_instr.lineno, int) or should_cover_conditional_statement(..)` -/
+def condOk (b : BlockInfo) : Bool :=
+  match b.last with
+  | none => true
+  | some none => true
+  | some (some c) => c
+
+/-- `any(not isinstance(instr.lineno, int) or should_cover_line(instr.lineno) for instr in original_instructions)` -/
+def lineOk (b : BlockInfo) : Bool :=
+  b.lines.any (fun l => match l with
+    | none => true
+    | some c => c)
+
+/-- The two `continue`s of the removal loop: artificial nodes and blocks WITHOUT ANY real instruction are
+skipped (`all(not isinstance(instr, Instr) ...)`), and so are blocks that are to be covered. -/
+def keepNode (b : BlockInfo) : Bool :=
+  (!b.isBlock || b.elems.all (fun e => !e)) || (condOk b && lineOk b)
+
+/-- The nodes `_create_covered_cdg` removes, in removal order (`ast_info is None`: nothing is removed). -/
+def removedNodes (hasAst : Bool) (bs : List BlockInfo) : List Node :=
+  if hasAst then (bs.filter (fun b => !keepNode b)).map (·.node) else []
+
+/-- `BranchCoverageInstrumentation.visit_node` (3.11+) up to the point where it inspects the kind of jump:
+`false` = returned early (no last instruction, excluded conditional statement, no line to cover). -/
+def visitGate (hasAst : Bool) (b : BlockInfo) : Bool :=
+  match b.last with
+  | none => false
+  | some l =>
+    (!hasAst || (match l with
+      | none => true
+      | some c => c)) && (!hasAst || lineOk b)
+
+/-- `_create_covered_cdg` as a whole: the unpruned CDG `full` with the excluded nodes removed. -/
+def coveredCdg (hasAst : Bool) (bs : List BlockInfo) (full : CG) : CG := removeNodes full (removedNodes hasAst bs)
+
 /-- `ProgramGraph.entry_node`: the first node (in node order) without incoming edge. -/
 def entryNode (nodes : List Node) (g : CG) : Option Node :=
   nodes.find? (fun n => !g.any (fun e => e.2.1 == n))
@@ -199,6 +250,19 @@ defines.  These are decided per real module by the checkers below (soundness pro
 
 /-- An edge that `_retrieve_control_dependencies` / `_is_control_dependent_on_root` walks through. -/
 def isPass (isBlock : Node → Bool) (e : Node × Node × Label) : Bool := !(isBlock e.1 && e.2.2.isSome)
+
+/-- Executable hypothesis checker for the pruning theorem (`Props/C07.covered_cdg_ok`): the root is an artificial
+node, and every labelled edge of the unpruned CDG that leaves a basic block leaves a block that holds a real last
+instruction and for which `visit_node`, when its gate lets it through, registered a predicate. -/
+def checkPrune (preds : List Pred) (co : Nat) (hasAst : Bool) (isBlock : Node → Bool) (root : Node)
+    (bs : List BlockInfo) (full : CG) : Bool :=
+  bs.all (fun b => b.node != root || !b.isBlock) &&
+  full.all (fun e => isPass isBlock e ||
+    (bs.any (fun b => b.node == e.1) &&
+     bs.all (fun b => b.node != e.1 ||
+       (b.isBlock && b.elems.any (fun x => x) && b.last.isSome &&
+        (!visitGate hasAst b || preds.any (fun p => p.co == co && p.node == e.1))))))
+
 
 /-- `S` (latest discovery first) lists nodes that reach `n` backwards along pass edges. -/
 def wfBack (g : CG) (isBlock : Node → Bool) (n : Node) : List Node → Bool
